@@ -40,9 +40,10 @@ def _pow2_exp(n):
 
 
 class Canon:
-    def __init__(self, env=None, atom_hook=None):
+    def __init__(self, env=None, atom_hook=None, rewrite=None):
         self.env = env or {}
         self.atom_hook = atom_hook
+        self.rewrite = rewrite      # optional domain identity: node -> equivalent node | None (e.g. chained builder calls)
 
     # ------------------------------------------------------------------ public
     def __call__(self, e):
@@ -148,6 +149,12 @@ class Canon:
         while isinstance(e, ast.Name) and e.id in self.env and seen < 20:
             e = self.env[e.id]
             seen += 1
+        if self.rewrite is not None:
+            for _ in range(8):
+                e2 = self.rewrite(e)
+                if e2 is None:
+                    break
+                e = e2
         return e
 
     def _mask_form(self, e):
